@@ -316,6 +316,11 @@ func (fgen *funcGen) irCallInst(new ir.Instruction, old *ast.CallInst) error {
 	}
 	// The callee type is always pointer to function type.
 	ptrToSig := types.NewPointer(sig)
+	// (in the address space of the call: a callee that is a constant expression
+	// is checked against this type).
+	if n, ok := old.AddrSpace(); ok {
+		ptrToSig.AddrSpace = irAddrSpace(n)
+	}
 	callee, err := fgen.irValue(ptrToSig, old.Callee())
 	if err != nil {
 		return errors.WithStack(err)
